@@ -10,6 +10,8 @@ use rkyv::{Archive, Deserialize, Serialize};
 pub const MAX_CLOCK_DRIFT: Duration = Duration::from_secs(4_100);
 /// The maximum timestamp value in seconds that the timestamp can support (32 bits.)
 pub const TIMESTAMP_MAX: u64 = (1 << 32) - 1;
+/// The maximum value of the fractional (4ms resolution) part of a timestamp.
+const FRACTIONAL_MAX: u8 = 249;
 /// The UNIX timestamp which datacake timestamps start counting from.
 ///
 /// This is essentially the `1st Jan, 2023`.
@@ -276,18 +278,22 @@ impl FromStr for HLCTimestamp {
             .and_then(|v| v.parse::<u8>().ok())
             .ok_or(InvalidFormat)?;
 
-        Ok(Self::new(
-            parts_as_duration(seconds, fractional),
-            counter,
-            node,
-        ))
+        if seconds > TIMESTAMP_MAX || fractional > FRACTIONAL_MAX {
+            return Err(InvalidFormat);
+        }
+
+        Ok(Self(pack_parts(seconds, fractional, counter, node)))
     }
 }
 
 /// Packs the given values into
 fn pack(duration: Duration, counter: u16, node: u8) -> u64 {
     let (seconds, fractional) = duration_to_parts(duration);
+    pack_parts(seconds, fractional, counter, node)
+}
 
+/// Packs the already split timestamp parts into the `u64` representation.
+fn pack_parts(seconds: u64, fractional: u8, counter: u16, node: u8) -> u64 {
     let counter = counter as u64;
     let fractional = fractional as u64;
     let node = node as u64;
